@@ -112,8 +112,15 @@ pub fn preseal_melmint<C: ContentAddrStore>(state: UnsealedState<C>) -> Unsealed
 /// Parses the pool named by a transaction's data. Only canonical keys (left denomination strictly below the
 /// right one, as `PoolKey::new` produces) are accepted: the long byte form is not canonicalized by
 /// `PoolKey::from_bytes`, and a reversed or equal-sided key would address a pool with its sides swapped.
+///
+/// `NewCustom` is only the placeholder by which a transaction names the token it creates: no coin in the state ever
+/// carries it, so no pool can have it as a side. (The empty string parses as the key NewCustom/MEL; a "pool" under
+/// that key would take every freshly minted token — which is exempt from balancing — for its left-hand asset.)
 fn pool_key_from_data(data: &[u8]) -> Option<PoolKey> {
     let key = PoolKey::from_bytes(data)?;
+    if key.left() == Denom::NewCustom || key.right() == Denom::NewCustom {
+        return None;
+    }
     (key.left().to_bytes() < key.right().to_bytes()).then_some(key)
 }
 
